@@ -1,3 +1,4 @@
+import Splipy.Lemmas.C10Cummax
 import Splipy.Lemmas.C10Periodic
 
 /-!
@@ -313,8 +314,12 @@ theorem makePeriodic_valid {b nb : Basis K} (hv : b.Valid) (hper : b.periodic = 
   have h2p := hv.size_ge
   have hnf : b.numFunctions = b.knots.size - b.order := by
     unfold Basis.numFunctions; rw [hper]; simp
+  have hval := mpBasis_valid hv k hk (by omega)
   rw [makePeriodic_ok h]
-  exact mpBasis_valid hv k hk (by omega)
+  have hcm : cummax (b.makePeriodicKnots k) = b.makePeriodicKnots k :=
+    cummax_knots_of_sorted _ hval.sorted
+  rw [hcm]
+  exact hval
 
 end Basis
 
